@@ -307,6 +307,19 @@ func checkC06(c *CaseC06, fl *Fails) {
 }
 
 func sweepC06(tier string, emit func(*CaseC06)) {
+	// long segments: thousands of voxels in one call (level, climbing and diagonal), so that an implementation which
+	// works through the segment in slabs, batches or a bounded recursion still has to return one gap-free chain
+	long := []float64{9000.4}
+	if tier != "quick" {
+		long = []float64{1100.4, 4200.4, 9000.4, 33000.4}
+	}
+	for _, n := range long {
+		base := Pt{F64(139.788452), F64(35.670935), F64(100)}
+		wl, hl, ra := localSizes(base, 25, 25)
+		emit(&CaseC06{S: base, E: Pt{F64(base.Lon.V() + n*wl), base.Lat, base.Alt}, H: 25, V: 10, Kind: "long"})
+		emit(&CaseC06{S: base, E: Pt{F64(base.Lon.V() + n/3*wl), F64(base.Lat.V() - n/3*hl), F64(base.Alt.V() + n/3*ra)}, H: 25, V: 25, Kind: "long"})
+		emit(&CaseC06{S: base, E: Pt{F64(base.Lon.V() + n/2*wl), F64(base.Lat.V() + n/2*hl), base.Alt}, H: 25, V: 25, Spatial: true, Kind: "long"})
+	}
 	dirs := [][3]float64{{1, 0, 0}, {0, 1, 0}, {0, 0, 1}, {1, 1, 0}, {1, 0, 1}, {0, 1, 1}, {1, 1, 1}, {-1, 1, 1}, {1, -1, 1}, {1, 1, -1}, {3, 1, 2}, {-2, 5, -1}}
 	for _, h := range []int64{0, 1, 2, 10, 29, 30, 31, 32, 35} {
 		for _, v := range []int64{0, 24, 25, 26, 32, 33, 34, 35} {
